@@ -265,6 +265,8 @@ pub fn run(cfg: &Cfg) -> Stats {
         Tier::Quick => (200_000, 2_000),
         Tier::Thorough => (5_000_000, 50_000),
     };
+    let cross_all_slots = cfg.tier == Tier::Thorough;
+    let full_rgb = cfg.tier == Tier::Thorough;
     let mut st = par(cfg, |shard, n| {
         let mut st = Stats::new();
         let mut k = 0u64;
@@ -338,6 +340,75 @@ pub fn run(cfg: &Cfg) -> Stats {
                 }
             }
         }
+        // greys and two-equal-component colours in every slot (renderers that special-case equal components)
+        for v in 0..=255u8 {
+            if !mine() {
+                continue;
+            }
+            let o = rng.byte();
+            for rgb in [[v, v, v], [v, v, o], [v, o, v], [o, v, v]] {
+                let c = Col::Rgb(rgb[0], rgb[1], rgb[2]);
+                st.eval();
+                if let Err((sig, msg)) = check_color(c, false) {
+                    st.viol(&sig, msg, Case::new("c05-color-rgb").n(rgb[0] as i64).n(rgb[1] as i64).n(rgb[2] as i64));
+                }
+                for slot in 0..3 {
+                    let mut s = SgrState::default();
+                    match slot {
+                        0 => s.fg = Some(c),
+                        1 => s.bg = Some(c),
+                        _ => s.ul = Some(c),
+                    }
+                    eval_style(s, false, &mut st, true);
+                }
+            }
+        }
+        // every effect set combined with every palette colour as the only colour (renderers with combined fast paths);
+        // the thorough tier does this for each slot and also with a second colour present
+        for bits in 0..4096u16 {
+            if !mine() {
+                continue;
+            }
+            for n16 in 0..16u8 {
+                eval_style(SgrState { fg: Some(Col::P16(n16)), fx: bits, ..Default::default() }, false, &mut st, true);
+                if cross_all_slots {
+                    eval_style(SgrState { bg: Some(Col::P16(n16)), fx: bits, ..Default::default() }, false, &mut st, true);
+                    eval_style(SgrState { ul: Some(Col::P16(n16)), fx: bits, ..Default::default() }, false, &mut st, true);
+                    eval_style(SgrState { fg: Some(Col::P16(n16)), bg: Some(Col::P16(15 - n16)), fx: bits, ..Default::default() }, false, &mut st, true);
+                    eval_style(SgrState { fg: Some(Col::Idx(n16)), fx: bits, ..Default::default() }, false, &mut st, true);
+                }
+            }
+        }
+        // single effects and pairs of effects with every pair of palette colours in (fg, bg)
+        for a in 0..12u16 {
+            for b in a..12u16 {
+                if !mine() {
+                    continue;
+                }
+                for f in 0..16u8 {
+                    for g in 0..16u8 {
+                        eval_style(SgrState { fg: Some(Col::P16(f)), bg: Some(Col::P16(g)), fx: (1 << a) | (1 << b), ..Default::default() }, false, &mut st, true);
+                    }
+                }
+            }
+        }
+        if full_rgb {
+            // every 24-bit colour through the colour renderers (fg / bg / underline forms)
+            for r in 0..=255u8 {
+                if !mine() {
+                    continue;
+                }
+                for g in 0..=255u8 {
+                    for b in 0..=255u8 {
+                        st.eval();
+                        st.nontrivial_enum();
+                        if let Err((sig, msg)) = check_color(Col::Rgb(r, g, b), false) {
+                            st.viol(&sig, msg, Case::new("c05-color-rgb").n(r as i64).n(g as i64).n(b as i64));
+                        }
+                    }
+                }
+            }
+        }
         // random full styles, some under the format-flag grid
         let mut i = shard;
         while i < nrand {
@@ -357,7 +428,11 @@ pub fn run(cfg: &Cfg) -> Stats {
         }
         st
     });
-    st.exhaustive_parts.push("all 4096 effect sets; all 16 palette and 256 indexed colours in each of the three slots; all 256 values of each RGB component in each slot".into());
+    st.exhaustive_parts.push(format!(
+        "all 4096 effect sets; all 16 palette and 256 indexed colours in each of the three slots; all 256 values of each RGB component in each slot; all 256 greys and all two-equal-component patterns in each slot; all 4096 effect sets x 16 palette foregrounds{}; all single effects and pairs of effects x 16 x 16 palette (fg, bg) pairs{}",
+        if cross_all_slots { " (and backgrounds, underline colours, fg+bg pairs, indexed 0-15)" } else { "" },
+        if full_rgb { "; all 2^24 RGB colours through the colour renderers" } else { "" }
+    ));
     st
 }
 
